@@ -1802,18 +1802,21 @@ def _readsegment(
       bytes object).
 
     """
-    result = b""
+    search_from = 0
 
     while True:
-        tokens_pos = buf.find(end_tokens)
+        tokens_pos = buf.find(end_tokens, search_from)
         if tokens_pos != -1:
             before, after = buf[:tokens_pos], buf[tokens_pos + len(end_tokens) :]
-            result += before
-            return after, result
+            return after, before
 
-        buf = _recv(sock, RECV_SIZE)
-        if not buf:
+        # Keep what was received so far: the segment may span several chunks
+        # and the end_tokens may straddle the boundary of two of them.
+        search_from = max(0, len(buf) - len(end_tokens) + 1)
+        chunk = _recv(sock, RECV_SIZE)
+        if not chunk:
             raise MemcacheUnexpectedCloseError()
+        buf += chunk
 
 
 def _recv(sock: socket.socket, size: int) -> bytes:
